@@ -1059,8 +1059,19 @@ def _argsort_cells(cells, stable=True):
 # ---------------------------------------------------------------------------
 # constructors
 
+def _c_contiguous(r):
+    """NumPy: order='C' / ascontiguousarray copy an array whose memory is not C-contiguous"""
+    from . import symrec
+    if _py_isinstance(r, symrec.SRec):
+        return r if r.flags.c_contiguous else r.copy()
+    if _py_isinstance(r, SArr) and not r.a.flags.c_contiguous:
+        return SArr(rnp.ascontiguousarray(r.a), r.dt)
+    return r
+
+
 def asarray(x, dtype=None, order=None, **kw):
-    return array(x, dtype=dtype, copy=False)
+    r = array(x, dtype=dtype, copy=False)
+    return _c_contiguous(r) if order == "C" else r
 
 
 def asanyarray(x, dtype=None, **kw):
@@ -1068,7 +1079,10 @@ def asanyarray(x, dtype=None, **kw):
 
 
 def ascontiguousarray(x, dtype=None):
-    return array(x, dtype=dtype, copy=False)
+    r = _c_contiguous(array(x, dtype=dtype, copy=False))
+    if _py_isinstance(r, SArr) and r.ndim == 0:
+        r = r.reshape((1,))
+    return r
 
 
 def array(x, dtype=None, copy=True, ndmin=0, order=None, **kw):
